@@ -64,8 +64,19 @@ class OtherAnn:
         return cls._cache[k]
 
 
-def to_real(t):
-    """Build the real document through the public combinators only."""
+def to_real(t, memo=None):
+    """Build the real document through the public combinators only.  With a
+    [memo] dict, equal sub-terms become ONE Python object (documents are
+    immutable values; users share them)."""
+    if memo is not None:
+        key = repr(t)
+        if key not in memo:
+            memo[key] = _to_real(t, lambda x: to_real(x, memo))
+        return memo[key]
+    return _to_real(t, to_real)
+
+
+def _to_real(t, to_real):
     from prettyprinter import doc as D
     from prettyprinter.syntax import Token
     k = t[0]
@@ -249,6 +260,66 @@ def rand_doc(r, budget, classic=False, depth=0):
         return ('FC', rand_doc(r, a, classic, depth + 1), rand_doc(r, b, classic, depth + 1))
     return ('An', r.choice([('oth', 1), ('oth', 2), ('tok', 6), ('tok', 13)]),
             rand_doc(r, budget - 1, classic, depth + 1))
+
+
+def rand_align_doc(r, budget, depth=0):
+    """align-heavy documents: nested align/hang under groups and nests"""
+    texts = ['a', 'bb', 'ccc', 'x' * r.randint(1, 9)]
+    if budget <= 1 or depth > 8:
+        c = r.random()
+        if c < 0.5:
+            return ('T', r.choice(texts))
+        if c < 0.75:
+            return ('L',)
+        if c < 0.85:
+            return ('SL',)
+        return ('H',)
+    c = r.random()
+    if c < 0.40:
+        k = r.randint(2, min(4, budget))
+        kids = split_budget(r, budget - 1, k)
+        return ('C', [rand_align_doc(r, b, depth + 1) for b in kids])
+    if c < 0.55:
+        return ('G', rand_align_doc(r, budget - 1, depth + 1))
+    if c < 0.70:
+        return ('Ne', r.choice([1, 2, 3]), rand_align_doc(r, budget - 1, depth + 1))
+    if c < 0.90:
+        return ('Al', rand_align_doc(r, budget - 1, depth + 1))
+    return ('Hg', r.choice([1, 2]), rand_align_doc(r, budget - 1, depth + 1))
+
+
+def subterms(t, out=None):
+    out = [] if out is None else out
+    out.append(t)
+    k = t[0]
+    if k in ('C', 'Fi'):
+        for x in t[1]:
+            subterms(x, out)
+    elif k in ('Ne', 'Hg', 'An'):
+        subterms(t[2], out)
+    elif k in ('G', 'AB', 'Al'):
+        subterms(t[1], out)
+    elif k == 'FC':
+        subterms(t[1], out)
+        subterms(t[2], out)
+    return out
+
+
+def shared_doc(r, base):
+    """a document using one sub-document twice, at different indentation"""
+    subs = [x for x in subterms(base) if x[0] not in ('T', 'L', 'SL', 'H', 'N')]
+    cell = r.choice(subs) if subs else base
+    if not (set(kinds(cell)) & {'Al', 'Hg'}) or r.random() < 0.3:
+        cell = ('Al', ('C', [cell, ('H',), ('T', 'v')]))
+    pre = ('T', r.choice(['a', 'ab', 'abc']))
+    sep = r.choice([('H',), ('L',), ('H',)])
+    second = ('Ne', r.choice([1, 2, 3, 4]), ('C', [sep, r.choice([('T', ''), pre]), cell]))
+    shape = r.random()
+    if shape < 0.5:
+        return ('C', [pre, cell, second])
+    if shape < 0.75:
+        return ('G', ('C', [pre, cell, second, ('L',), base]))
+    return ('C', [base, ('H',), pre, cell, second])
 
 
 def split_budget(r, total, k):
